@@ -39,10 +39,17 @@ class C13Oracle(Oracle):
             if paths and not paths[0].is_validated:
                 self.own_amp_budget = paths[0].bytes_received * 3 - paths[0].bytes_sent
 
+    def on_frontend_datagram(self, ep, dgram, copy_index):
+        # received by the server all the same (a Retry / Version Negotiation answer is sent on its account)
+        self.recv_from[dgram.src] = self.recv_from.get(dgram.src, 0) + len(dgram.data)
+        self.front_counted = getattr(self, "front_counted", set())
+        self.front_counted.add((dgram.id, copy_index))
+
     def on_datagram_delivered(self, ep, dgram, copy_index):
         if ep.is_client:
             return
-        self.recv_from[dgram.src] = self.recv_from.get(dgram.src, 0) + len(dgram.data)
+        if (dgram.id, copy_index) not in getattr(self, "front_counted", ()):
+            self.recv_from[dgram.src] = self.recv_from.get(dgram.src, 0) + len(dgram.data)
         # the oracle's deliberately EARLY notion of validation: a Handshake-keyed packet or a
         # PATH_RESPONSE arrived from that address (aioquic may validate later: merely stricter)
         for p in genuine_packets(dgram):
